@@ -555,11 +555,13 @@ def t1_checks(ctx, i, info, files):
         checks.append((f"lib#{i} pagers.py classes {[c[0] for c in classes]}",
                        f"list_eqb lines_eqb (pagers_module {coq.b(has_grpc)} {rpcs_term}) {coq.lst(coq.slist(c[1]) for c in classes)}"))
         by_name = {m["name"]: m for m in info["rpcs"]}
+        bad = []
         for cname, _, callee in classes:
             rpc = re.sub(r"(Async)?Pager$", "", cname)
             want = short(by_name[rpc]["req_fqn"]) if rpc in by_name else None
-            ctx.oblige(f"lib#{i}: T1 {cname} copies the request with its own request type", callee is not None and callee.split(".")[-1] == want,
-                       f"callee={callee} want={want}", "T1")
+            if callee is None or callee.split(".")[-1] != want:
+                bad.append(f"{cname}: callee={callee} want={want}")
+        ctx.oblige(f"lib#{i}: T1 every pager class ({len(classes)}) copies the request with the method's own request type", not bad, "; ".join(bad), "T1")
     except Exception as e:  # noqa
         ctx.oblige(f"lib#{i}: T1 extraction of pager classes from {d}pagers.py", False, repr(e), "T1")
     for fname, cls, is_async in (("client.py", info["service"] + "Client", False), ("async_client.py", info["service"] + "AsyncClient", True)):
